@@ -60,6 +60,26 @@ CLAIMED["C04"] = {
   "technique": "Lean 4 dispatch lemmas + lock-step correspondence with forced deliveries in the first-registration window + chaining monitor",
 }
 
+_CH_NOTE = "Trusted: Lean kernel + audited axioms (decide +kernel over finite tables, no native_decide); the view-based memory model of Model/Channel.lean (per-location message histories, per-thread views, release sequences through RMWs, stale relaxed reads, spurious weak-CAS failures) as an over-approximation of Rust's model for this program; extractor (SLOTS/BITS/MASK, the six orderings); the scheduler drives the real Channel through SC interleavings + injected spurious failures (stale reads cannot be produced on x86); cell accesses are observed both at UnsafeCell::get and as actual memory changes per step."
+CLAIMED["C06"] = {
+  "text": "Lean 4 proofs by complete enumeration (decide +kernel, lifted by closure lemmas) over all 326 well-formed queue states that the packed u16 queues are exact List FIFOs: dequeue hands out the head and leaves the tail, enqueue appends at the tail and never panics with room, empty is reported iff empty, pack is injective and well-formed states are closed; model-level lemma for every state and every environment choice that a value is discarded only by a step that read an empty `empty` queue. Tied to /repo by the regenerated constants, the exhaustive get/set table (2^16 x 5 x 9 arguments, real functions vs model), lock-step execution of the real Channel under the scheduler (N threads, bursts beyond capacity, sends nested as a signal handler, spurious CAS failures) against the model, FIFO/uniqueness/outstanding-count monitors on the implementation trace, and an unscheduled stress search when the correspondence breaks.",
+  "design_ref": "DESIGN.md section 6 C06",
+  "note": _CH_NOTE + " The N-thread ownership / FIFO-refinement invariant over whole executions is checked by the monitors on every explored schedule; its inductive Lean proof is in progress (DESIGN.md).",
+  "technique": "Lean 4 exhaustive kernel-checked tables + step lemmas; lock-step correspondence; exhaustive bit-function table",
+}
+CLAIMED["C07"] = {
+  "text": "Lean 4: the ordering side condition (enqueue success releases, dequeue success acquires) is a theorem about the orderings regenerated from channel.rs, so any downgrade breaks a proof obligation; kernel-checked witnesses show the side condition is necessary (with either ordering relaxed the model reaches a data race on the simplest send/recv execution) and that the declared orderings are race-free on executions with forced stale reads and cell reuse. Tied to /repo by the lock-step channel correspondence, a vector-clock happens-before monitor computed from the orderings the code actually passes at run time, an ownership monitor on actual cell modifications (memory watched per step), and destructor-counting payloads (drop exactly once incl. channel drop).",
+  "design_ref": "DESIGN.md section 6 C07",
+  "note": _CH_NOTE + " The general race-freedom invariant for N threads under the view semantics is in progress; until then level = proof of the side condition + kernel-checked witnesses + monitors.",
+  "technique": "Lean 4 side-condition theorem over regenerated orderings + kernel-checked race witnesses; vector-clock and ownership monitors on scheduled executions",
+}
+CLAIMED["C08"] = {
+  "text": "Lean 4: in every state of the model (reachable or not — i.e. wherever every other thread, or the thread a handler interrupted, is paused) and under every environment choice a thread with work left has an enabled step (no operation of send/recv waits on another thread); enqueue finds room on every well-formed non-full queue (complete enumeration). Tied to /repo by the lock-step channel correspondence with sends nested at every step of a send/recv on the same thread, panic detection, per-operation own-step bound 7 + 2 x failed CAS on the implementation trace, and the unscheduled stress search with a real signal handler.",
+  "design_ref": "DESIGN.md section 6 C08",
+  "note": _CH_NOTE + " That the expect()s are unreachable from every *reachable* state needs the ownership invariant (in progress); it is monitored on every explored schedule.",
+  "technique": "Lean 4 enabledness lemma for all states + exhaustive kernel-checked table; lock-step correspondence with nested sends; stress search",
+}
+
 NOT_YET = {}
 ALL = ["C%02d" % i for i in range(1, 19)]
 
